@@ -83,6 +83,10 @@ def final(h: Any, e: Any, state: dict[str, Any]) -> None:
             h.violate("stream_raises", {**w, "outcome": kind}, f"stream_events() raised {h.stream_error!r}")
         if h.stream and not isinstance(h.stream[-1], StopEvent):
             h.violate("stream_last_not_terminal", {**w, "outcome": kind}, "stream ended without a terminal event")
+        # what the consumer received is exactly what this run published, in order (nothing of another run, nothing missing)
+        if [id(x) for x in h.stream] != [id(x) for x in pub[:len(h.stream)]] or (terminals and len(h.stream) < pub.index(terminals[0]) + 1):
+            h.violate("stream_differs_from_published", {**w, "outcome": kind},
+                      f"stream_events() delivered {stream_repr(h.stream, False)} but the run published {stream_repr(pub, False)}")
         pq = hd._external_adapter._queues.publish_queue
         if not pq.empty():
             h.violate("published_after_terminal", {**w, "outcome": kind}, "publish queue not empty after the stream ended")
@@ -305,8 +309,53 @@ RULE = ("outcome causes (normal/custom stop, stop racing running workers, raise 
         "event, nothing after it and a terminating stream consumer; non-trivial = at least one schedule deviation")
 
 
+def execute_reuse(ex: Any, mode: str) -> tuple[Any, list[Any]]:
+    """A later run is started under the run_id of an earlier, finished run whose stream nobody read.  The runtime may
+    refuse that (it does: RuntimeError) - if it accepts, the later run has to satisfy the property on its own."""
+    from types import SimpleNamespace
+
+    from vmc.checks.common import Program  # noqa: F401
+    from vmc.engine import BasicRuntime, EngineExec, MonRuntime, RunConfig
+
+    with EngineExec(ex, RunConfig()) as e:
+        h = e.h
+        h.restart_marks = []
+        h.spec = SimpleNamespace(params={"cause": "normal_stop", "history": f"run_id_reused_after_{mode}"}, name=f"reuse_{mode}")
+        cls = wf_chain(2)
+        wf = cls(timeout=None, runtime=MonRuntime(BasicRuntime()))
+        hd1 = wf.run(run_id="job")
+        if mode == "cancel":
+            e.add_script([Action("cancel_run", lambda: hd1.ctx._workflow_cancel_run())])
+        e.cfg.stop_when = lambda hh: hd1.is_done()
+        e.drive()
+        if not hd1.is_done():
+            return {"outcome": "first run pending", "_metrics": {"max_concurrency": 1}}, []
+        first = task_outcome(hd1._result_task)
+        h.restart_marks.append(len(h.published))
+        h.stream, h.stream_done, h.stream_error = [], False, None
+        try:
+            hd2 = wf.run(ctx=hd1.ctx, run_id="job")
+        except RuntimeError as x:
+            return {"outcome": "refused", "first": first[0], "why": str(x)[:60], "_metrics": {"max_concurrency": 1}}, []
+        state = {"hd": hd2}
+        e.consume_stream(hd2)
+        e.cfg.stop_when = lambda hh: hd2.is_done() and hh.stream_done
+        e.stuck = False
+        e.drive()
+        out2 = task_outcome(hd2._result_task)
+        if out2[0] == "exception" and isinstance(out2[1], RuntimeError) and "already exists" in str(out2[1]):
+            return {"outcome": "refused", "first": first[0], "_metrics": {"max_concurrency": 1}}, []
+        final(h, e, state)
+        return {"outcome": out2[0], "first": first[0], "stream": stream_repr(h.stream, False)[-3:], "_metrics": {"max_concurrency": 1}}, list(h.violations)
+
+
 def programs(tier: str) -> list[Any]:
-    return to_programs(specs(tier), ORACLE)
+    from vmc.checks.common import Program
+
+    ps = to_programs(specs(tier), ORACLE)
+    for mode in ("finish", "cancel"):
+        ps.append(Program(f"run_id_reused_after_{mode}", {"mode": mode}, (lambda ex, mode=mode: execute_reuse(ex, mode))))
+    return ps
 
 
 def run(tier: str, seed: int) -> Any:
